@@ -361,3 +361,35 @@ Proof. exact @negative_sloss_differs. Qed.
 Print Assumptions C06_negative_sloss_differs.
 
 Example C06_gen_eval_example := gen_eval_example.
+
+(* ---- closing corollaries added after the independent review (DESIGN 10.3): the lemmas are in Proofs/ReviewC*.v ---- *)
+
+From SR Require Import Proofs.ReviewCLabelCost. Import ReviewCLabelCost.PartD.
+
+Theorem C06_valid_lab_well_ordered :
+  forall (S : stree) (O : otree) (t : ltree),
+       SpfsProofs.valid_lab S O t -> leaves_nonempty O -> well_ordered t.
+Proof. exact @valid_lab_well_ordered. Qed.
+Print Assumptions C06_valid_lab_well_ordered.
+
+Theorem C06_c06_ordered_recount_valid :
+  forall (c : costs) (S : stree) (O : otree) (t : ltree),
+       SpfsProofs.valid_lab S O t ->
+       leaves_nonempty O ->
+       NoDup (lsyn t) -> ordered_labeling_cost c t = Some (c_sloss c * olab_spec t).
+Proof. exact @c06_ordered_recount_valid. Qed.
+Print Assumptions C06_c06_ordered_recount_valid.
+
+Theorem C06_c06_ordered_recount_valid_ordered :
+  forall (c : costs) (S : stree) (ord : list fam) (O : otree) (t : ltree),
+       NoDup ord ->
+       SpfsProofs.valid_ordered S ord O t ->
+       leaves_nonempty O -> ordered_labeling_cost c t = Some (c_sloss c * olab_spec t).
+Proof. exact @c06_ordered_recount_valid_ordered. Qed.
+Print Assumptions C06_c06_ordered_recount_valid_ordered.
+
+Theorem C06_c06_chain_length :
+  forall s d : path, length (chain s d) = length d.
+Proof. exact @c06_chain_length. Qed.
+Print Assumptions C06_c06_chain_length.
+
